@@ -66,7 +66,13 @@ for pid in ALL:
             "evidence_file": "evidence/%s.json" % pid,
             "replay_cmd_template": "python3 tools/check.py %s --replay {path}" % pid,
             "engine": "coq",
-            "level_claimed": {"category": "proof", "text": sp["level_text"], "design_ref": sp.get("design_ref", "DESIGN.md section 5")},
+            "level_claimed": {"category": "proof",
+                              "text": sp["level_text"] + ((" The scope differs per family: what is proved for each family (and what is "
+                                                          "only checked by the correspondence run, e.g. the CPC compressed codec and reader, "
+                                                          "which have no Coq model) is stated part by part under 'Parts merged' in "
+                                                          "level_note; a part marked PARTIAL limits the sentence above for that family.")
+                                                         if pid in FAMILIES_OF else ""),
+                              "design_ref": sp.get("design_ref", "DESIGN.md section 5 and section 11")},
             "level_note": sp["level_note"] + ((" Parts merged: " + "; ".join(sp["covers"]) + ".") if sp.get("covers") else "")
                           + coverage_note(pid, sp),
             "technique": sp.get("technique", "machine-checked proof in Coq (Rocq) about an executable model + checked correspondence to the crate"),
